@@ -187,6 +187,39 @@ def cps_join(ivs):
     return ".".join(str(x) for x in out)
 
 
+def auto_commit_accounting(case, i, prev, s, commit, syms, check_alternative):
+    """the last conversion logged during the op is the conversion of the over-full buffer: what was pushed out is a
+    leading part of it, in order, and nothing is lost or invented.  None when no text was pushed out."""
+    out = []
+    full = s.convs[-1]
+    fsyms = lst(full.get("syms", ""))
+    if len(fsyms) <= len(syms):
+        return None
+    # the conversion that is pushed out is the alternative (Tab) the user was looking at
+    if check_alternative and full.get("nth") is not None and prev.snap.get("nth") is not None and full["nth"] != prev.snap["nth"] \
+            and not (is_key(s) and key_code(s) == KC["Tab"]):
+        out.append(fail("auto-commit-of-another-alternative", case, i,
+                        "alternative %s was displayed, alternative %s was committed" % (prev.snap["nth"], full["nth"])))
+    ok = False
+    acc = []
+    removed = 0
+    for iv in full["ivs"]:
+        acc.append(iv)
+        removed += iv[1] - iv[0]
+        if cps_join(acc) == commit and fsyms[removed:] == syms:
+            ok = True
+            break
+    ncommit = len([x for x in commit.split(".") if x])
+    # the character count presumes C03's contract (one character per symbol); a syllable left
+    # without any word is committed by its Bopomofo spelling (fix e6644f0) - several characters
+    # for one symbol, outside C02's / C03's dictionary hypothesis: only the count is waived then
+    spelled = any(len(iv[3]) != iv[1] - iv[0] for iv in acc)
+    if not ok or (not spelled and ncommit + len(syms) != len(fsyms)):
+        out.append(fail("auto-commit-not-a-leading-part", case, i,
+                        "full %s ivs %s commit %s left %s" % (fsyms, full["ivs"], commit, syms)))
+    return out
+
+
 def c02(cases, res):
     out = []
     commits = autos = 0
@@ -197,6 +230,13 @@ def c02(cases, res):
                 continue
             if not is_key(s):
                 api_since_commit = True
+                # a choice made through the API (Editor::select / chewing_cand_choose_by_index) can push text out of a
+                # buffer whose limit was lowered meanwhile: the same accounting as for a key
+                if s.op[0] in ("select", "cchoose") and s.snap.get("last") == "Commit" and s.convs and lst(s.snap.get("syms", "")):
+                    f = auto_commit_accounting(case, i, prev, s, s.snap.get("commit", ""), lst(s.snap.get("syms", "")), check_alternative=False)
+                    if f is not None:
+                        autos += 1
+                        out += f
                 # commit_preedit_buf path
                 if s.op[0] == "commit" and s.res == "1" and prev.obs is not None:      # (sparsely observed cases: no display to compare)
                     commits += 1
@@ -216,32 +256,10 @@ def c02(cases, res):
                                     "display %s commit %s left %s" % ((prev.obs or {}).get("display"), commit, syms)))
             # auto-commit: the last conversion logged during the op is the conversion of the over-full buffer
             elif s.res == "Commit" and syms and s.convs:
-                full = s.convs[-1]
-                fsyms = lst(full.get("syms", ""))
-                if len(fsyms) > len(syms):
+                f = auto_commit_accounting(case, i, prev, s, commit, syms, check_alternative=True)
+                if f is not None:
                     autos += 1
-                    # the conversion that is pushed out is the alternative (Tab) the user was looking at
-                    if full.get("nth") is not None and prev.snap.get("nth") is not None and full["nth"] != prev.snap["nth"] \
-                            and not (is_key(s) and key_code(s) == KC["Tab"]):
-                        out.append(fail("auto-commit-of-another-alternative", case, i,
-                                        "alternative %s was displayed, alternative %s was committed" % (prev.snap["nth"], full["nth"])))
-                    ok = False
-                    acc = []
-                    removed = 0
-                    for iv in full["ivs"]:
-                        acc.append(iv)
-                        removed += iv[1] - iv[0]
-                        if cps_join(acc) == commit and fsyms[removed:] == syms:
-                            ok = True
-                            break
-                    ncommit = len([x for x in commit.split(".") if x])
-                    # the character count presumes C03's contract (one character per symbol); a syllable left
-                    # without any word is committed by its Bopomofo spelling (fix e6644f0) - several characters
-                    # for one symbol, outside C02's / C03's dictionary hypothesis: only the count is waived then
-                    spelled = any(len(iv[3]) != iv[1] - iv[0] for iv in acc)
-                    if not ok or (not spelled and ncommit + len(syms) != len(fsyms)):
-                        out.append(fail("auto-commit-not-a-leading-part", case, i,
-                                        "full %s ivs %s commit %s left %s" % (fsyms, full["ivs"], commit, syms)))
+                    out += f
             # a non-empty commit string exactly when the result says commit
             if bool(commit) != (s.res == "Commit"):
                 sig = "stale-commit-after-api" if api_since_commit and commit and s.res != "Commit" else "commit-flag-mismatch"
